@@ -91,6 +91,10 @@ func TestVerifRun(t *testing.T) {
 		run = zzRunC04
 	case "C05":
 		run = zzRunC05
+	case "C12":
+		run = zzRunC12
+	case "C13":
+		run = zzRunC13
 	default:
 		t.Fatalf("unknown VERIF_PROP %q", prop)
 	}
